@@ -78,6 +78,15 @@ def mutants_of(rng, d, bi, spec, thorough):
                 b = bytearray(data)
                 b[pos] = m
                 emit("byte", (pos, m), bytes(b))
+    # the 4-byte little-endian footer length in the trailer, overwritten as a whole (single-byte mutations above only reach
+    # values one byte away from the true length): small, off-by-one, file-size-relative, sign-bit and all-ones neighbourhoods
+    flen = info["footer_len"]
+    for v in sorted(set([0, 1, 2, 7, 8, flen - 1, flen + 1, flen + 8, n - 8, n - 9, n - 7, n - 12, n, n + 1, 2 * flen, 0x7FFFFFFF, 0x7FFFFFF8, 0x80000000, 0x80000001, 0x80000008]
+                        + [0xFFFFFFFF - k for k in range(0, 17)] + [0xFFFFFFFF - n + k for k in (0, 7, 8, 9)])):
+        if 0 <= v <= 0xFFFFFFFF and v != flen:
+            b = bytearray(data)
+            b[n - 8:n - 4] = int(v).to_bytes(4, "little")
+            emit("footerlen", v, bytes(b))
     # targeted metadata lies
     keys = ["num_rows", "rg0.num_rows", "rg0.total_byte_size"]
     for j in range(len(cols)):
@@ -137,7 +146,7 @@ def run(chk):
     thorough = chk.tier == "thorough"
     rng = chk.rng
     chk.rule = ("for each small valid Parquet file (every encoding/codec/page version): EVERY truncation length; EVERY byte position in the footer, page "
-                "headers, dictionary pages and level regions x {0x00, 0xFF, ^0x01, ^0x80} plus 10% of data bytes; targeted metadata lies written by "
+                "headers, dictionary pages and level regions x {0x00, 0xFF, ^0x01, ^0x80} plus 10% of data bytes; ~45 whole-field values of the trailer's footer length; targeted metadata lies written by "
                 "the independent writer (num_rows, num_values, page/chunk sizes, offsets, type_length, codec ids, encodings, types) x {-1,0,1,2^31-1,"
                 "2^32,2^63-1,99}. CSV: invalid UTF-8, unterminated quotes, ragged rows, NUL bytes, 1 MB field, only delimiters, BOM, every truncation. "
                 "Each mutant is read in its own engine on the det executor under a CPU-time limit and a 4 GiB address-space cap; outcome classes rows / "
